@@ -39,7 +39,7 @@ func main() {
 		n, _ := runPruning(r)
 		evals += n
 		r.Set("pruning_configurations", n)
-		rule += "pruning: chain length x retention window x validator-change height x (once | twice with one more block); every record needed for the retained heights is probed after each pruner"
+		rule += "pruning: chain length x retention window x every set of <= 2 validator-change heights x (once | twice with one more block); every record needed for the retained heights is probed after each pruner (present, and the validator set equal to the one recorded before pruning)"
 	}
 	r.Set("evaluations", evals)
 	r.Set("distinct_nontrivial", r.Get("distinct_restart_outcomes")+r.Get("pruning_configurations"))
